@@ -15,6 +15,74 @@ OPENERS = {"epoll_create1", "epoll_create", "pipe", "pipe2", "timerfd_create", "
 value_sources = rules.value_sources
 
 
+
+def _fresh_record(fn, path):
+    """The poll record is created on this path (an allocation stored into `->ev`) and, read from the branch conditions *before* that
+    store — through the definitions of boolean locals, and through `(A == B)` with one side known —, no record existed."""
+    import re as _re
+    idx = None
+    for i_, (b_, _at) in enumerate(path):
+        for e in fn.blocks[b_].events:
+            if e.kind == "assign" and e.lhs is not None and S(e.lhs).endswith("->ev") and e.rhs is not None and strip(e.rhs) is not None \
+                    and strip(e.rhs)["k"] != "null" and any(isinstance(x_, dict) and x_.get("k") == "call" for x_ in lm.walk(e.rhs)):
+                idx = i_
+                break
+        if idx is not None:
+            break
+    if idx is None:
+        return False
+    slot = None
+    for e in fn.blocks[path[idx][0]].events:
+        if e.kind == "assign" and e.lhs is not None and S(e.lhs).endswith("->ev"):
+            slot = S(e.lhs)
+    items = []
+    for (_b, at) in path[:idx]:
+        for ap in at:
+            if ap[0] not in [x_[0] for x_ in items]:
+                items.append(ap)
+    facts = set(rules.resolve_atoms(fn, items))
+    for _round in range(3):
+        add = set()
+        for (a_, p_) in facts:
+            m_ = _split_eq(a_)
+            if not m_ or p_ not in (True, False):
+                continue
+            l_, op_, r_ = m_
+            same = p_ if op_ == "==" else (not p_)
+            for x_, y_ in ((l_, r_), (r_, l_)):
+                for v_ in (True, False):
+                    if has(facts, x_, v_) and not (has(facts, y_, True) or has(facts, y_, False)):
+                        add.add((y_, v_ if same else (not v_)))
+        if not add - facts:
+            break
+        facts |= add
+    for form, pol in ((slot, False), ("(%s != NULL)" % slot, False), ("(%s != 0)" % slot, False), ("(%s == NULL)" % slot, True)):
+        if has(facts, form, pol):
+            return True
+    return False
+
+
+def _split_eq(atom):
+    """'(L == R)' / '(L != R)' with both operands themselves boolean-valued (parenthesised tests) -> (L, op, R)."""
+    if not (atom.startswith("((") and atom.endswith("))")):
+        return None
+    body = atom[1:-1]
+    depth = 0
+    for i_, ch in enumerate(body):
+        if ch == "(":
+            depth += 1
+        elif ch == ")":
+            depth -= 1
+            if depth == 0:
+                rest = body[i_ + 1:]
+                for op_ in (" == ", " != "):
+                    if rest.startswith(op_):
+                        l_, r_ = body[:i_ + 1], rest[len(op_):]
+                        if r_.startswith("(") and r_.endswith(")"):
+                            return (l_, op_.strip(), r_)
+                return None
+    return None
+
 def run(ck, P):
     X = Ctx(P)
     cg = X.cg
@@ -188,7 +256,7 @@ def run(ck, P):
         evs = list(rules.path_events(ps_, path))
         if any(e in cps for e in evs):
             n_ += 1
-            if rules.path_assumes_aliased(ps_, path).get("tmp->ev") is not False:
+            if rules.path_assumes_aliased(ps_, path).get("tmp->ev") is not False and not _fresh_record(ps_, path):
                 bad_p = path
     ck.ob("C20.2-WHO-OPENS", ps_.site("descriptor only with a fresh poll record"), bad_p is None and n_ > 0,
           "%d path(s) reach create_priv_fd, all for a source that had no poll record yet" % n_ if bad_p is None else
